@@ -200,6 +200,9 @@ func Explore(c *core.Ctx, rl *RaceLog, sc Scenario) {
 			}
 		}, shardOpts(c, sc, b), &st)
 		c.State()
+		if st.Divergences > 0 {
+			c.HarnessError("%s: %d executions diverged from their recorded prefix (%s): the system under test keeps state between executions or has nondeterminism the harness does not own", sc.Name, st.Divergences, st.LastDivergence)
+		}
 		if st.Truncated {
 			c.Cap("%s: bound %s not completed (deadline) after %d executions", sc.Name, boundName(b), st.Execs)
 			return
